@@ -8,18 +8,21 @@ def unit_mocklemma():
 def lemma(name, op, n, k=40):
     return Query(name, 'harness', unit_mocklemma, 'h_mocklemma', defines=[f'H_OP={op:#x}', f'H_N={n}', f'VERIF_STACK_W={n}', f'VERIF_ITEM_CAP={k}', 'VERIF_SCRIPT_CAP=24'], unwind=max(k + 2, 34), timeout=3000, object_bits=12, backend='kissat',
                  bounded=f'element storage {k} bytes; one listed pair', functions=['harness/spec_sig.h: spec_sig_op (lemma over the specification)'])
-QUERIES = [lemma('mock_lemma_checksig', 0xac, 2), lemma('mock_lemma_checksigverify', 0xad, 2), lemma('mock_lemma_checksigadd', 0xba, 3)]
+from props import units_main as UM
+PPV = [Query(f'pair_list_form{f}', 'harness', UM.unit_pretend_valid, 'h_pretend_valid', defines=['VERIF_ITEM_CAP=8', f'H_PV_FORM={f}'], unwind=30, timeout=900,
+             functions=['instance.cpp: Instance::parse_pretend_valid_expr'], bounded='pair lists of the forms S:P, S1:P1,S2:P2, P, S:P:Q, S:P,Q and the empty list, with symbolic characters; expression evaluation (Value) is an oracle') for f in range(6)]
+QUERIES = PPV + [lemma('mock_lemma_checksig', 0xac, 2), lemma('mock_lemma_checksigverify', 0xad, 2), lemma('mock_lemma_checksigadd', 0xba, 3)]
 # code == spec for every mock configuration (the mock table is symbolic in all C02 signature queries): re-run the single-signature ones and two multisig cases
-QUERIES += [q for q in C02.QUERIES if re.match(r'sig_(checksig_pre|checksig_tapscript|checksig_taproot|checksigverify_pre|checksigadd_tapscript|multisig_1of0|multisig_1of1|multisig_2of1)$', q.name)]   # (multisig with signatures: thorough tier)
+QUERIES += [q for q in C02.QUERIES if re.match(r'sig_(checksig_pre|checksig_tapscript|checksig_taproot|checksigverify_pre|checksigadd_tapscript|multisig_1of0|multisig_1of1|multisig_2of1)$', q.name)]   # (multisig 1of1: quick; more keys: thorough tier)
 META = {'level': 'proof', 'trusted_base': TRUSTED + ['stubs/step_env_sig.h oracles'],
  'assumptions': ASSUME_COMMON + [
-   "claimed: the opcode half; the pair-list parser Instance::parse_pretend_valid_expr (strndup / Value parsing) is not applicable",
+   "the pair-list parser Instance::parse_pretend_valid_expr is decided for six list shapes with symbolic characters (pair_list_form*), the evaluation of each expression (Value) being an oracle",
    "one listed pair S:P with arbitrary byte strings (the table lookups of the real code are modelled for a single entry)",
    "multisig: listed keys are honoured inside the matching loop (checked in the C02 multisig queries with a symbolic table); the lemma is stated for the single-signature opcodes",
  ],
  'explanation': 'lemma over harness/spec_sig.h by self-composition (option on / off) + the C02 code==spec contracts with a fully symbolic mock table'}
 MANIFEST = {
- 'text': 'Opcode half: (a) the listed signature checked against its listed key succeeds in CHECKSIG / CHECKSIGVERIFY / CHECKSIGADD under every flag set, encoding, script version (legacy, v0, tapscript, taproot key path) and oracle verdict, without consulting verification; (b) another signature for the listed key and (c) any check not involving the listed key have exactly the verdict, stack, op count and budget they have without the option - proved as a self-composition lemma over the specification and transferred to the real EvalChecksig / multisig code by the contracts re-run here with a symbolic mock table.',
- 'note': 'parse_pretend_valid_expr is not applicable. One listed pair.',
+ 'text': 'Pair lists: S:P and S1:P1,S2:P2 register exactly the listed pairs in order, lists with a missing or doubled colon are rejected. Opcodes: (a) the listed signature checked against its listed key succeeds in CHECKSIG / CHECKSIGVERIFY / CHECKSIGADD under every flag set, encoding, script version (legacy, v0, tapscript, taproot key path) and oracle verdict, without consulting verification; (b) another signature for the listed key and (c) any check not involving the listed key have exactly the verdict, stack, op count and budget they have without the option - proved as a self-composition lemma over the specification and transferred to the real EvalChecksig / multisig code by the contracts re-run here with a symbolic mock table.',
+ 'note': 'Pair-list parser: six list shapes, expression evaluation as oracle. Opcode lemma: one listed pair.',
  'technique': 'self-composition lemma over the executable specification + assume/assert contracts of the real EvalChecksig code with a symbolic mock table; CBMC',
  'design_ref': 'DESIGN.md 6 (C11)'}
